@@ -438,7 +438,19 @@ def stream_consumers(chk, progs):
             adv = [c for c in f.calls() if slot_call(c) == ("struct.sqfs_istream_t", "advance_buffer")]
             if not adv:
                 continue
-            gets = [c for c in f.calls() if slot_call(c) == ("struct.sqfs_istream_t", "get_buffered_data")]
+            gets = [(c, strip_casts(c.ops[2])) for c in f.calls() if slot_call(c) == ("struct.sqfs_istream_t", "get_buffered_data")]
+            # a static helper that hands its own `size` parameter on to get_buffered_data is such a call
+            for c in f.calls():
+                if not c.callee:
+                    continue
+                h = prog.fn(c.callee, f.unit)
+                if h is None or h.decl or h.unit is not f.unit or h is f:
+                    continue
+                for g2 in h.build().calls():
+                    if slot_call(g2) == ("struct.sqfs_istream_t", "get_buffered_data"):
+                        q = strip_casts(g2.ops[2])
+                        if q.is_arg and q.idx < len(c.ops):
+                            gets.append((c, strip_casts(c.ops[q.idx])))
             for a in adv:
                 key = (f.unit.src, f.name, a.line, a.col)
                 if key in seen:
@@ -450,10 +462,9 @@ def stream_consumers(chk, progs):
                 cnt = a.ops[1]
                 # sizes delivered: loads of the alloca / pointer passed as the `size` out-parameter
                 ok = False
-                for g in gets:
+                for (g, szp) in gets:
                     if not (f.inst_dominates(g, a) or f.reaches(g.bb, a.bb)):
                         continue
-                    szp = strip_casts(g.ops[2])
                     for x in backward_slice(cnt):
                         if x.is_inst and x.op == "load" and strip_casts(x.ops[0]) is szp:
                             ok = True
